@@ -209,7 +209,9 @@ void Exec::op_visit(const Op& op) {
 void Exec::op_census(const Op& op) {
   if (walk_unreliable) { count(C_EXCLUDED); return; }
   std::vector<VisitRec> all; std::vector<int> from;   // from: heap index or 0 for abandoned
-  for (int h = 1; h < NHEAPS; h++) { if (!m.heaps[h].alive) continue; Hp& H = m.heaps[h]; if (H.pending_remote) { mi_heap_collect(H.h, false); H.pending_remote = false; }
+  // (all collects first: a collect may run the program's deferred-free callback, which frees blocks of any heap of this thread)
+  for (int h = 1; h < NHEAPS; h++) { if (!m.heaps[h].alive) continue; Hp& H = m.heaps[h]; if (H.pending_remote) { mi_heap_collect(H.h, false); H.pending_remote = false; } }
+  for (int h = 1; h < NHEAPS; h++) { if (!m.heaps[h].alive) continue; Hp& H = m.heaps[h];
     VisitCtx c; c.heap = H.h; mi_heap_visit_blocks(H.h, true, &visit_cb, &c); for (auto& v : c.blocks) { all.push_back(v); from.push_back(h); } }
   bool with_abandoned = visit_abandoned_on;
   if (with_abandoned && op.has("astop")) {   // an abandoned walk that the visitor stops early: it stops there, reports false, and takes nothing away from the walk that follows
